@@ -189,4 +189,36 @@ def addC [TreeAdd V] (d : D V) (other : List (String × V)) : Res (D V) :=
 def relabel (d : D V) (m : List (String × String)) : D V :=
   { d with items := setAll [] (d.items.map fun kv => ((lookup kv.1 m).getD kv.1, kv.2)) }
 
+/-- the POSITIONAL argument of `d.relabel(*args, **relabels)` (`relabel`, _dictattr.py:324-340): nothing, one string (an affix),
+a callable, a dict old → new, or a list of new names / several positional names (`as_list(args)` makes both one list) -/
+inductive RelArg where
+  | none
+  | affix (s : String)
+  | fn (f : String → String)
+  | dict (m : List (String × String))
+  | names (ns : List String)
+
+/-- one string argument: `'_x'` is a suffix, `'x_'` a prefix, any other string relabels nothing (:329-333) -/
+def affixMap (keys : List String) (s : String) : List (String × String) :=
+  if s.startsWith "_" then keys.map fun k => (k, k ++ s)
+  else if s.endsWith "_" then keys.map fun k => (k, s ++ k)
+  else []
+
+/-- the module-level `relabel(keys, *args, **relabels)`: the mapping old → new as an association list that `lookup` reads
+(first match).  `res.update(relabels)` runs last, so the keywords override the positional part: they come first.  A list of new
+names counts only when it is as long as `keys`; a list of ONE name is `as_list`-flattened to that string (an affix). -/
+def relabelMap (keys : List String) (arg : RelArg) (kw : List (String × String)) : List (String × String) :=
+  kw ++ match arg with
+    | .none => []
+    | .affix s => affixMap keys s
+    | .fn f => keys.map fun k => (k, f k)
+    | .dict m => m
+    | .names ns =>
+        if ns.length = 1 then affixMap keys (ns.headD "")
+        else if ns.length = keys.length then keys.zip ns else []
+
+/-- `d.relabel(arg, **kw)` in every documented form: the mapping is computed from the keys of `d`, then applied as `relabel` -/
+def relabelA (d : D V) (arg : RelArg) (kw : List (String × String)) : D V :=
+  relabel d (relabelMap (keys d) arg kw)
+
 end Pyg.DA
